@@ -83,7 +83,7 @@ func C16(c *Ctx) {
 	r.Rule("R16.4", "cascade: in AppchainManager.Manage, on the approved branch, event freeze reaches the cross-invoke PauseChainService, activate reaches UnPauseChainService, logout reaches ClearChainService and ClearRule before any successful return, each with its result tested; the per-service loops of the service manager call the per-service operation on every iteration.")
 	r.Rule("R16.5", "service cache coherence: the executor's service cache (consulted before ledger state) is fed from SERVICE events only across a receipt-success edge; each event caches a record allocated in its own loop iteration; rollbackBlocks resets it on every path that rolled the ledger back; every service-manager entry that changes a service's status posts the SERVICE event before returning success.")
 	r.Rule("R16.7", "no verdict is dropped: for every checkTargetAvailability call of checkIBTP, at each accepting return that the call can reach, the returned target error has the call's error result among its origins (through the assignments and phis in between); a verdict that is only logged or lands in a shadowing variable lets a request to an unavailable or forbidden service through as a normal transaction.")
-	r.NotDecided = append(r.NotDecided, "composed behaviour over lifecycle histories; semantics of the looplab FSM engine (trusted)")
+	r.NotDecided = append(r.NotDecided, "composed behaviour over lifecycle histories; status predicates of bitxhub-core (IsAvailable() vs. == available, seed C16-r9); semantics of the looplab FSM engine (trusted)")
 
 	// ---- R16.1
 	check := c.fn("R16.1", imPrefix+"checkIBTP")
